@@ -181,6 +181,16 @@ template<typename T> static std::string vec_op(ArenaVector<T>& v, ArenaVector<T>
   else if (op == "resize_grow") e = v.resize_grow(ar, size_t(a));
   else if (op == "concat") { if (!other) return "bad-op"; e = v.concat(ar, *other); }
   else if (op == "swap") { if (!other) return "bad-op"; v.swap(*other); }
+  else if (op == "move_from") {
+    if (!other) return "bad-op";
+#ifdef C18_HAVE_MOVE_ASSIGN
+    v = std::move(*other);                       // operator=(ArenaVector&&): other is reset
+#else
+    // operator=(ArenaVector&&) of this tree cannot be instantiated (see harness/c18_move_probe.cpp): same effect by hand
+    ArenaVector<T> tmp(std::move(*other)); v.reset(); v.swap(tmp);
+#endif
+  }
+  else if (op == "move_ctor") { if (!other) return "bad-op"; ArenaVector<T> tmp(std::move(*other)); v.reset(); v.swap(tmp); }
   else if (op == "release") v.release(ar);
   else if (op == "index_of") { size_t i = v.index_of(mk<T>(a)); r = " r=" + (i == SIZE_MAX ? std::string("none") : U(i)); }
   else if (op == "last_index_of") { size_t i = v.last_index_of(mk<T>(a)); r = " r=" + (i == SIZE_MAX ? std::string("none") : U(i)); }
@@ -328,7 +338,7 @@ static std::string step(const std::string& line) {
     auto it = g_vec.find(id);
     if (it == g_vec.end()) return "bad-op";
     VecAny* o = nullptr;
-    if (op == "concat" || op == "swap") {
+    if (op == "concat" || op == "swap" || op == "move_from" || op == "move_ctor") {
       auto jt = g_vec.find(id2);
       if (jt == g_vec.end() || jt->second.item != it->second.item || id2 == id) return "bad-op";
       o = &jt->second;
@@ -356,6 +366,19 @@ static std::string step(const std::string& line) {
     }
     if (op == "swap") { auto jt = g_hash.find(id2); if (jt == g_hash.end() || id2 == id) return "bad-op"; h.swap(jt->second); return "ok" + hash_state(h); }
     if (op == "release") { h.release(*g_arena); return "ok" + hash_state(h); }
+    if (op == "reset") { h.reset(); return "ok" + hash_state(h); }
+    if (op == "move_from") {
+      auto jt = g_hash.find(id2);
+      if (jt == g_hash.end() || id2 == id) return "bad-op";
+#ifdef C18_HAVE_HASH_MOVE
+      ArenaHash<HNode> tmp(std::move(jt->second));     // ArenaHash(ArenaHash&&): the source is left empty
+#else
+      // the move constructor of this tree cannot be instantiated (see harness/c18_move_probe.cpp): same effect by swaps
+      ArenaHash<HNode> tmp; tmp.swap(jt->second);
+#endif
+      h.reset(); h.swap(tmp);
+      return "ok" + hash_state(h);
+    }
     if (op == "dump") return "ok" + hash_state(h) + " " + hash_dump(h);
     return "bad-op";
   }
@@ -511,6 +534,12 @@ static std::string step(const std::string& line) {
       auto jt = g_str.find(id2);
       if (jt == g_str.end() || id2 == id || s.is_external() || jt->second->is_external()) return "bad-op";
       s.swap(*jt->second);
+    }
+    else if (op == "move_from" || op == "move_ctor") {
+      auto jt = g_str.find(id2);
+      if (jt == g_str.end() || id2 == id || s.is_external() || jt->second->is_external()) return "bad-op";
+      if (op == "move_from") s = std::move(*jt->second);                 // operator=(String&&): swap + other.reset()
+      else { String tmp(std::move(*jt->second)); s = std::move(tmp); }    // String(String&&)
     }
     else if (op == "eq") { if (!hexarg(3)) return "bad-op"; r = std::string(" r=") + (s.equals((const char*)bytes.data(), bytes.size()) ? "1" : "0"); }
     else return "bad-op";
